@@ -36,7 +36,16 @@ func UnsignedSubs(fn *ssa.Function) []USub {
 		}
 		x, y := ExprKey(b.X), ExprKey(b.Y)
 		us := USub{Op: b}
-		for _, f := range FactsAt(b.Block()) {
+		if clampedBefore(b, x, y) {
+			us.Guarded, us.Why = true, "the minuend was clamped up to the subtrahend just before (if a < b { a = b })"
+			out = append(out, us)
+			return
+		}
+		for _, cd := range CondsAt(b.Block()) {
+			f := FactOf(cd)
+			if storedBetween(cd.If.Block(), b, b.X) || storedBetween(cd.If.Block(), b, b.Y) {
+				continue // the compared memory may have been overwritten since the test
+			}
 			// y <= x  or  y < x
 			if (f.Op == "<=" || f.Op == "<") && f.A == y && f.B == x {
 				us.Guarded, us.Why = true, "dominated by "+f.String()
@@ -57,4 +66,93 @@ func UnsignedSubs(fn *ssa.Function) []USub {
 		out = append(out, us)
 	})
 	return out
+}
+
+// addrKeyOf returns the canonical key of the address a value was loaded from ("" if v is not a load).
+func addrKeyOf(v ssa.Value) string {
+	u, ok := v.(*ssa.UnOp)
+	if !ok || u.Op != token.MUL {
+		return ""
+	}
+	return ExprKey(u.X)
+}
+
+// storedBetween: v is a memory load and some store to the same location lies in a block
+// dominated by `from` and executes before `at` can be reached (conservatively: any such store
+// that is not after `at` in the same block).
+func storedBetween(from *ssa.BasicBlock, at ssa.Instruction, v ssa.Value) bool {
+	return storedBetweenX(from, at, v, false)
+}
+
+func storedBetweenX(from *ssa.BasicBlock, at ssa.Instruction, v ssa.Value, includeFrom bool) bool {
+	key := addrKeyOf(v)
+	if key == "" {
+		return false
+	}
+	found := false
+	Instrs(at.Parent(), func(in ssa.Instruction) {
+		st, ok := in.(*ssa.Store)
+		if !ok || ExprKey(st.Addr) != key {
+			return
+		}
+		if !from.Dominates(st.Block()) || (st.Block() == from && !includeFrom) {
+			return
+		}
+		if st.Block() == at.Block() && IndexOf(st) > IndexOf(at) {
+			return
+		}
+		// the store must be able to reach the subtraction
+		q := PathQ{Fn: at.Parent(), From: st, Target: func(x ssa.Instruction, _ *ssa.BasicBlock) bool { return x == at }}
+		if esc, _ := q.Escape(); esc != nil {
+			found = true
+		}
+	})
+	return found
+}
+
+// clampedBefore recognises
+//	if a < b { a = b }      (a, b memory locations or values; no else branch)
+//	... a - b ...
+// where the subtraction's block is (dominated by) the join of that if.
+func clampedBefore(sub *ssa.BinOp, x, y string) bool {
+	ax := addrKeyOf(sub.X)
+	if ax == "" {
+		return false
+	}
+	for d := sub.Block(); d != nil; d = d.Idom() {
+		for _, p := range d.Preds {
+			ifi, ok := p.Instrs[len(p.Instrs)-1].(*ssa.If)
+			if !ok || len(p.Succs) != 2 {
+				continue
+			}
+			for ti := 0; ti < 2; ti++ {
+				thenB, other := p.Succs[ti], p.Succs[1-ti]
+				if other != d || len(thenB.Succs) != 1 || thenB.Succs[0] != d || len(thenB.Preds) != 1 {
+					continue
+				}
+				f := FactOf(normCond(ifi, ifi.Cond, ti == 0))
+				if !(f.Op == "<" && f.A == x && f.B == y) {
+					continue
+				}
+				okStore := false
+				for _, in := range thenB.Instrs {
+					if st, ok := in.(*ssa.Store); ok && ExprKey(st.Addr) == ax && ExprKey(st.Val) == y {
+						okStore = true
+					}
+				}
+				if !okStore {
+					continue
+				}
+				// no later store to a or b before the subtraction
+				if storedBetweenX(d, sub, sub.X, true) || storedBetweenX(d, sub, sub.Y, true) {
+					continue
+				}
+				if d != sub.Block() && !d.Dominates(sub.Block()) {
+					continue
+				}
+				return true
+			}
+		}
+	}
+	return false
 }
